@@ -155,6 +155,17 @@ type IndexSpec struct {
 // real commit.Reader over the value encoded the way the column kind encodes it, so that
 // the rule sees exactly what the library would show it.
 func evalRule(p PredSpec, k Kind, v MVal) bool {
+	if k.Numeric() && !k.Float() && v.U>>63 == 0 {
+		// a non-negative integer (of any width, signed or not) that fits 63 bits has one meaning
+		// through the generic integer accessors, whatever the encoding: the rule is evaluated on
+		// the number itself, not through the library's reader
+		switch p.Fam {
+		case "igt":
+			return int(v.U) > int(p.I)
+		case "ugt":
+			return uint(v.U) > uint(p.I)
+		}
+	}
 	buf := commit.NewBuffer(16)
 	buf.Reset("x")
 	putVal(buf, commit.Put, 5, k, v)
